@@ -310,7 +310,13 @@ func cmdWorker(args []string) int {
 		name := fmt.Sprintf("%s-%016x.json", p.ID, choice.Mix(choice.HashTape(best), choice.MixString(e.Name)))
 		path := filepath.Join(*replayDir, name)
 		b, _ := json.MarshalIndent(rf, "", " ")
-		if err := os.WriteFile(path, b, 0o644); err != nil {
+		// several workers can find the same minimal tape: write atomically so that the file is always whole
+		tmp := fmt.Sprintf("%s.%d.tmp", path, os.Getpid())
+		if err := os.WriteFile(tmp, b, 0o644); err != nil {
+			so.Harness = "cannot write replay file: " + err.Error()
+			return
+		}
+		if err := os.Rename(tmp, path); err != nil {
 			so.Harness = "cannot write replay file: " + err.Error()
 			return
 		}
